@@ -58,7 +58,7 @@ LEVEL_TEXT = ('Bounded symbolic verification: (1) the real applyFMGInterpolation
               'coarse values are returned, constants and (tensor) cubics in local distances are reproduced at radially interior nodes from exactly the four admissible neighbours '
               '(every other coarse value is an unconstrained symbol), and that the two lines next to the boundaries use a convex two-point rule; (2) the real setup() + solve() '
               'start-up with FMG is executed with all right-hand sides and all work vectors symbolic: the start vector must equal the harness\'s own coarsest solve + level-by-level '
-              'FMG interpolation and must not depend on stale data. Shapes / level counts bounded.')
+              'FMG interpolation and must not depend on stale data; with FMG iterations >= 1 it must equal the nested iteration written out on a second solver object (configured cycle type and count, extrapolated variant on the finest level only), on 2 and 3 levels. Shapes / level counts bounded.')
 LEVEL_NOTE = 'exact arithmetic; shapes and 2-3 levels bounded; start-up coefficients from the small-rational libm mode; GMGPolar state built directly'
 TECHNIQUE = 'symbolic execution of LLVM IR (llsym) + SMT (z3 QF_NRA for the weights with symbolic spacings, cvc5 QF_LRA for the start-up)'
 DESIGN_REF = 'DESIGN.md section 6/C09'
